@@ -49,7 +49,7 @@ def inventory(ctx):
 
 
 def run(ctx):
-    ctx.rule = ("(a) in-process conversion of wild units of all 7 types (all keys x adversarial values, references, templates) and unit sets; (b) byte-level mutations of the repository's example "
+    ctx.rule = ("(a) in-process conversion of wild units of all 7 types (all keys x adversarial values, references, templates) and unit sets, and every single-separator damage (dropped, doubled, replaced, text beside it cut) of well-formed structured values of 60 keys; (b) byte-level mutations of the repository's example "
                 "files (tests/cases); (c) the real binary on trees with adversarial file names (non-UTF-8, leading '@', no stem, 255 bytes, newline), directories named like units, invalid UTF-8 contents, "
                 "NUL bytes, [Install] sections with odd aliases; a panic is a PANIC line of the driver, exit status 101/134, a signal, or a timeout; non-trivial = every case; distinct = distinct inputs")
     rng = ctx.rng
@@ -69,6 +69,14 @@ def run(ctx):
                   [("/d/c.container", "[Container]\nImage=img\nVolume=/a\0b:/c\n[Service]\nWorkingDirectory=\0\n")],
                   [("/d/@.container", "[Container]\nImage=img\n")], [("/d/.container", "[Container]\nImage=img\n")]):
         cases.append(case_line("convert", "0", *[x for f in files for x in f])); meta.append(files)
+    # field-splitter stress: every single-separator damage of well-formed structured values, with the referenced units present
+    companions = [("/d/n.network", "[Network]\n"), ("/d/v.volume", "[Volume]\n"), ("/d/i.image", "[Image]\nImage=quay.io/x/y\n"),
+                  ("/d/b.build", "[Build]\nImageTag=localhost/t\nFile=/Containerfile\n"), ("/d/c.container", "[Container]\nImage=img\n"), ("/d/p.pod", "[Pod]\n")]
+    for typ in docs.TYPES:
+        for text in gen_conv.gen_splitter_stress(typ, wide=(ctx.tier == "thorough")):
+            files = [("/d/x.%s" % typ, text)] + companions
+            cases.append(case_line("convert", "0", *[x for f in files for x in f])); meta.append(files)
+            ctx.count("splitter_stress")
     exdir = os.path.join(vlib.REPO, "tests", "cases")
     examples = sorted(f for f in os.listdir(exdir) if os.path.isfile(os.path.join(exdir, f)) and "." in f and f.rsplit(".", 1)[1] in docs.TYPES) if os.path.isdir(exdir) else []
     for _ in range(ctx.volume(3000, 40000)):
